@@ -269,7 +269,7 @@ func (d deviation) String() string {
 // structural deviations are applied after the attribute deviations so that copies see the final attributes.
 func (d deviation) structural() bool {
 	switch d.kind {
-	case "cross-signed", "twin-intermediate", "other-root", "twin-root-added", "twin-root-replaces", "missing":
+	case "cross-signed", "twin-intermediate", "other-root", "twin-root-added", "twin-root-replaces", "missing", "root-cross-untrusted":
 		return true
 	}
 	return false
@@ -330,6 +330,9 @@ func listDeviations(n int) []deviation {
 	add("leaf-no-san", 0, 0)
 	r = append(r, deviation{"other-root", -1}, deviation{"twin-root-added", -1}, deviation{"twin-root-replaces", -1})
 	add("cross-signed", 1, n)
+	// the root's subject and key once more as a certificate issued by a CA that is in no pool (unless other-root adds
+	// it), offered among the intermediates: a second acceptable parent at the last level of path building
+	r = append(r, deviation{"root-cross-untrusted", -1})
 	add("twin-intermediate", 1, n)
 	add("missing", 1, n+1)
 	return r
@@ -397,6 +400,11 @@ func (p *pkiSpec) apply(d deviation) {
 			ku: x509.KeyUsageCertSign | x509.KeyUsageCRLSign, nb: tNB, na: tNA, pathlen: -1})
 		x := p.chain[d.pos]
 		x.issuerName, x.signer, x.akiOf = "C15 Root Two", k2, k2
+		p.extraI = append(p.extraI, x)
+	case "root-cross-untrusted":
+		k := topoKey(p.kind(n+1), roleOther, 0)
+		x := p.chain[n+1]
+		x.issuerName, x.signer, x.akiOf = "C15 Other Root", k, k
 		p.extraI = append(p.extraI, x)
 	case "twin-intermediate":
 		x := p.chain[d.pos]
@@ -756,7 +764,7 @@ func runTopo(t *engine.T, mode string, n int, devs []deviation, times []vtime) m
 
 func benign(d deviation) bool {
 	switch d.kind {
-	case "pathlen-tight", "nc-permits-leaf", "nc-excludes-evil", "san-evil", "san-within", "leaf-no-san", "other-root", "twin-root-added", "cross-signed", "twin-intermediate":
+	case "root-cross-untrusted", "pathlen-tight", "nc-permits-leaf", "nc-excludes-evil", "san-evil", "san-within", "leaf-no-san", "other-root", "twin-root-added", "cross-signed", "twin-intermediate":
 		return true
 	}
 	return false
